@@ -61,6 +61,8 @@ class Describer:
         t = fn.local_ty(l)
         if t["k"] in ("uint", "int"):
             return ("idx",)
+        if l in self.R.mut_borrowed and t["k"] in ("array", "adt", "tuple"):
+            return ("at", "local#%d" % l)
         if l in self._busy:
             return ("self",)
         self._busy.add(l)
